@@ -1,12 +1,19 @@
 package main
 
 import (
+	"bytes"
 	"encoding/json"
 	"fmt"
 	"os"
 	"os/exec"
+	"sort"
 	"strings"
+	"syscall"
 	"time"
+
+	"seehuhn.de/go/postscript/psenc"
+	"seehuhn.de/go/postscript/type1"
+	"vharness/indep"
 
 	ps "seehuhn.de/go/postscript"
 
@@ -75,6 +82,52 @@ func renderShape(shape string, n int) (string, error) {
 	return "", fmt.Errorf("unknown shape %q", shape)
 }
 
+// renderT1Shape builds size-parameterised hostile fonts with the independent writer.
+func renderT1Shape(shape string, n int) ([]byte, error) {
+	num := func(v int64) indep.Tok { return indep.Tok{T: "n", V: v} }
+	cmd := func(c string) indep.Tok { return indep.Tok{T: "c", C: c} }
+	spec := &indep.FontSpec{FontName: "Shape", Toks: map[string][]indep.Tok{}, Subrs: [][]indep.Tok{{cmd("return")}, {cmd("return")}, {cmd("return")}, {cmd("return")}},
+		Info:    []string{"/version (1) readonly def", "/FullName (S) readonly def", "/FamilyName (S) readonly def", "/Weight (R) readonly def", "/ItalicAngle 0 def", "/isFixedPitch false def", "/UnderlinePosition -100 def", "/UnderlineThickness 50 def"},
+		Private: []string{"/BlueValues [-10 0 700 710] def"}}
+	addg := func(name string, t []indep.Tok) {
+		spec.Glyphs = append(spec.Glyphs, name)
+		spec.Toks[name] = t
+	}
+	addg(".notdef", []indep.Tok{num(0), num(250), cmd("hsbw"), cmd("endchar")})
+	// the glyph names of StandardEncoding with their codes, in sorted order
+	type sn struct {
+		name string
+		code int
+	}
+	var std []sn
+	seen := map[string]bool{}
+	for c, nm := range psenc.StandardEncoding {
+		if nm != ".notdef" && !seen[nm] {
+			seen[nm] = true
+			std = append(std, sn{nm, c})
+		}
+	}
+	sort.Slice(std, func(i, j int) bool { return std[i].name < std[j].name })
+	switch shape {
+	case "t1-seac-chain":
+		// every glyph is the composite of its predecessor with itself: resolved naively in
+		// name order, the outline doubles at every step
+		k := min(n, len(std))
+		addg(std[0].name, []indep.Tok{num(10), num(500), cmd("hsbw"), num(10), num(0), cmd("rmoveto"), num(100), cmd("hlineto"), num(100), cmd("vlineto"), cmd("closepath"), cmd("endchar")})
+		for i := 1; i < k; i++ {
+			addg(std[i].name, []indep.Tok{num(10), num(500), cmd("hsbw"), num(10), num(1), num(1), num(int64(std[i-1].code)), num(int64(std[i-1].code)), cmd("seac")})
+		}
+	case "t1-seac-self":
+		// composites of themselves and of each other
+		addg(std[0].name, []indep.Tok{num(10), num(500), cmd("hsbw"), num(10), num(1), num(1), num(int64(std[0].code)), num(int64(std[0].code)), cmd("seac")})
+		addg(std[1].name, []indep.Tok{num(10), num(500), cmd("hsbw"), num(10), num(1), num(1), num(int64(std[2].code)), num(int64(std[2].code)), cmd("seac")})
+		addg(std[2].name, []indep.Tok{num(10), num(500), cmd("hsbw"), num(10), num(1), num(1), num(int64(std[1].code)), num(int64(std[1].code)), cmd("seac")})
+	default:
+		return nil, fmt.Errorf("unknown shape %q", shape)
+	}
+	return indep.WriteFont(spec, indep.Layout{Cont: "clear", LenIV: 4, Names: "RD", Enc: "std"})
+}
+
 func shapeBudget(shape string, n int) int {
 	if shape == "cvx-nest-bind" {
 		return 12*n + 100 // enough to build all levels: the budget is the caller's choice
@@ -87,6 +140,25 @@ func runShapeChild(args []string) error {
 	var n, maxops int
 	fmt.Sscan(args[1], &n)
 	fmt.Sscan(args[2], &maxops)
+	// one absurd allocation must kill this child, not the machine
+	var lim syscall.Rlimit
+	lim.Cur, lim.Max = 6<<30, 6<<30
+	syscall.Setrlimit(syscall.RLIMIT_AS, &lim)
+	if strings.HasPrefix(args[0], "t1-") {
+		data, err := renderT1Shape(args[0], n)
+		if err != nil {
+			return err
+		}
+		f, e := type1.Read(bytes.NewReader(data))
+		ncmd := 0
+		if f != nil {
+			for _, g := range f.Glyphs {
+				ncmd += len(g.Cmds)
+			}
+		}
+		fmt.Printf("returned err=%v path commands=%d\n", e != nil, ncmd)
+		return nil
+	}
 	text, err := renderShape(args[0], n)
 	if err != nil {
 		return err
